@@ -84,9 +84,9 @@ def generate(rs: int, tier: str, index: int) -> dict:
         step.update({
             "fmt": fmt, "delimiter": ch.choice([" ", " ", ",", ";", "\t"]), "header": ch.choice(["", "", "a comment", "two\nlines"]),
             "comments": ch.choice(["# ", "# ", "#", "% "]), "spelling": ch.choice(["numpoly", "numpy"]),
-            "target": ch.choice(["simtext", "simbytes", "simtext_enc", "simbytes_enc", "path_str", "path_str", "pathlike"]),
+            "target": ch.choice(["simtext", "simbytes", "simtext_enc", "simbytes_enc", "path_str", "path_str", "pathlike", "simraw"]),
             "locale": ch.choice(["utf-8", "utf-8", "latin-1", "ascii"]),
-            "fault": ch.weighted([(4, None), (3, "write"), (1, "close"), (2, "read")]),
+            "fault": ch.weighted([(4, None), (3, "write"), (1, "close"), (2, "read"), (2, "full")]),
             "forward_only": ch.chance(0.4),
         })
     else:
@@ -94,6 +94,9 @@ def generate(rs: int, tier: str, index: int) -> dict:
         step["rows"] = [[float(ch.choice([-2, 0, 1, 2.5, 3])) for _ in range(cols)] for _ in range(rows)]
         step["target"] = ch.choice(["simtext", "simbytes", "path_str", "pathlike"])
         step["locale"] = "utf-8"
+        cp = ch.sub("plainkw")
+        step["comment_lines"] = cp.choice([0, 0, 1, 2])
+        step["skiprows"] = cp.choice([0, 0, 1, 2])
     return {"property": ID, "run_seed": rs, "tier": tier, "prelude": prelude.gen_prelude(core.Chooser(rs, "prelude")), "steps": [step]}
 
 
@@ -254,6 +257,10 @@ class Runner:
             return fileseam.SimText(faults=faults, encoding="utf-8")
         if kind == "simbytes":
             return fileseam.SimBytes(faults=faults)
+        if kind == "simraw":  # an unbuffered binary file: write() may take only part of the data and say so
+            stream = fileseam.SimBytes(faults=faults)
+            stream.raw = True
+            return stream
         if kind == "simbytes_enc":
             return fileseam.SimBytes(faults=faults, encoding="latin-1")
         env.set_faults(faults)
@@ -326,6 +333,38 @@ class Runner:
                         msg = self._load_and_compare(env, kind, t2, p, load_kw, tol, fileseam.Faults())
                         if msg:
                             self.violate("acknowledged-save-loadable", "savetxt", sid, f"write #{k} of {nwrites} raised OSError, savetxt returned normally, and the file does not load back: {msg}", where)
+            if step.get("fault") == "full":
+                # the device fills up after N characters, for several N including inside the first and the last write
+                try:
+                    total = len(target.getvalue()) if kind.startswith("sim") else os.path.getsize(env.path("poly.txt"))
+                except Exception:  # noqa: BLE001
+                    total = 0
+                caps = sorted({1, total - 1, total // 2} | {1 + core.H(self.rs, "cap", i) % max(1, total - 1) for i in range(4)}) if total > 2 else []
+                for cap in caps:
+                    f = fileseam.Faults(capacity=cap)
+                    t2 = self._target(env, kind, f, name=f"full{cap}.txt")
+                    self.bump("fault:device_full.configured")
+                    try:
+                        saver(t2, p, **save_kw)
+                    except OSError:
+                        self.bump("fault:device_full.fired")
+                        self.sigs.add(f"full|{kind}|{cap * 16 // total}|{core.H(core.jdump(step))}")
+                        continue
+                    except Exception as exc:  # noqa: BLE001
+                        self.bump("fault:device_full.fired")
+                        self.events.append(["full-fault-other-exc", type(exc).__name__])
+                        continue
+                    if f.fired:
+                        self.bump("fault:device_full.fired")
+                        by = f.short_write_by or ""
+                        if by and not os.path.abspath(by).startswith(NUMPOLY_DIR):
+                            # the writer that was handed the short count is numpy's row loop, which does not look at it
+                            # when no further row follows; not numpoly's call
+                            self.bump("undecided:short-count-returned-to-numpy")
+                            continue
+                        msg = self._load_and_compare(env, kind, t2, p, load_kw, tol, fileseam.Faults())
+                        if msg:
+                            self.violate("acknowledged-save-loadable", "savetxt", sid, f"device full after {cap} of {total} characters ({f.fired[-1]}), savetxt returned normally, and the file does not load back: {msg}", where)
             if step.get("fault") == "close" and not kind.startswith("sim"):
                 f = fileseam.Faults(close_fails=True)
                 t2 = self._target(env, kind, f, name="c.txt")
@@ -389,15 +428,20 @@ class Runner:
         rows = numpy.array(step["rows"])
         with fileseam.FileEnv(locale=step["locale"]) as env:
             target = self._target(env, kind, fileseam.Faults(), name="plain.txt")
-            numpy.savetxt(target, rows)
-            want = numpy.loadtxt(self._reader(env, kind, target, fileseam.Faults()))
+            numpy.savetxt(target, rows, header="\n".join(["x y", "second"][: step.get("comment_lines", 0)]))
+            kw = {"skiprows": step["skiprows"]} if step.get("skiprows") else {}
             try:
-                got = numpoly.loadtxt(self._reader(env, kind, target, fileseam.Faults()))
+                want = numpy.loadtxt(self._reader(env, kind, target, fileseam.Faults()), **kw)
+            except Exception:  # noqa: BLE001
+                self.bump("undecided:numpy-rejects-arguments")
+                return
+            try:
+                got = numpoly.loadtxt(self._reader(env, kind, target, fileseam.Faults()), **kw)
             except Exception as exc:  # noqa: BLE001
                 self.violate("headerless-plain-array", "loadtxt", sid, f"{type(exc).__name__}: {exc}", {"target": "stream" if kind.startswith("sim") else "path"})
                 return
         self.bump("decided")
-        self.sigs.add(f"plain|{kind}|{rows.shape}")
+        self.sigs.add(f"plain|{kind}|{rows.shape}|{step.get('comment_lines', 0)}|{step.get('skiprows', 0)}")
         if isinstance(got, numpoly.ndpoly) or not isinstance(got, numpy.ndarray) or got.shape != want.shape or not numpy.array_equal(got, want):
             self.violate("headerless-plain-array", "loadtxt", sid, f"target {kind}: got {getattr(got, 'tolist', lambda: got)()} expected {want.tolist()}", {"target": "stream" if kind.startswith("sim") else "path"})
         self.events.append(["plain", kind, numpy.asarray(got).tolist()])
